@@ -43,8 +43,23 @@ type c12Case struct {
 // the same struct (each step starts from the previous one) or on a by-value
 // copy of the struct as it stood after the first evaluation phase; then the
 // KDE is evaluated at Pts / Ivs like a new one.
+//
+// Data says what happens to the sample first (absent: nothing):
+//
+//	"xs-inplace"   every element of Sample.Xs is overwritten with NXs
+//	"ws-inplace"   every element of Sample.Weights is overwritten with NWs
+//	"both-inplace" both
+//	"assign"       Sample = Sample{Xs: NXs, Weights: NWs (absent: none), Sorted: NSorted}
+//
+// In-place writes go to the backing arrays, which a by-value copy of the
+// struct shares with the struct it was copied from: every later evaluation of
+// either is judged against the data as they are at the time of the call.
 type c12Re struct {
 	Copy    bool    `json:"copy,omitempty"`
+	Data    string  `json:"data,omitempty"`
+	NXs     []mon.F `json:"nxs,omitempty"`
+	NWs     []mon.F `json:"nws,omitempty"`
+	NSorted bool    `json:"nsorted,omitempty"`
 	Kernel  int     `json:"kernel"`
 	H       mon.F   `json:"h"`
 	BMin    mon.F   `json:"bmin"`
@@ -81,9 +96,23 @@ const (
 	// must be positive and agree to c12TolTail relative; "tail" as a class:
 	// reference below c12TailBelow of the largest density, where the
 	// absolute tolerance says nothing.
+	// The floor applies to the density and to the density times the bandwidth
+	// (the kernel value before it is divided by the bandwidth), so that it
+	// means the same at every data scale.
 	c12TailFloor = 1e-280
 	c12TolTail   = 1e-6
 	c12TailBelow = 1e-10
+
+	// Conditioning: an implementation forms x - x_i, and with boundaries the
+	// mirror images of x, in arithmetic rounded at the magnitude of the
+	// operands; a point displaced by a few ulps of that magnitude moves a
+	// kernel of width h by eps*magnitude/h of its width. Every tolerance on
+	// a density (relative to the largest density), on a distribution function
+	// value and on an integral gets c12CondFactor x eps x magnitude /
+	// bandwidth on top; negligible unless the data sit many bandwidths from
+	// the origin.
+	c12CondFactor = 32
+	c12CondSlack  = 8 // the same for the range and monotonicity slack
 )
 
 // c12Stat is the harness type handed to the bandwidth rules.
@@ -114,8 +143,10 @@ func (s *c12Stat) Quantile(q float64) float64 {
 func c12Config(c c12Case) (bounded bool, bmin, bmax float64, name string) {
 	bmin, bmax = math.Inf(-1), math.Inf(1)
 	if float64(c.BMin) != 0 || float64(c.BMax) != 0 {
-		bounded = true
 		bmin, bmax = float64(c.BMin), float64(c.BMax)
+		// an infinite boundary is no boundary on that side (KDE field
+		// documentation): (-Inf,+Inf) is the other way of writing "none"
+		bounded = !(math.IsInf(bmin, -1) && math.IsInf(bmax, 1))
 	}
 	lo, up := !math.IsInf(bmin, -1), !math.IsInf(bmax, 1)
 	switch {
@@ -256,6 +287,15 @@ func (t *c12Ctx) mag(x float64) float64 {
 	return mag
 }
 
+// cond is eps x magnitude / bandwidth at x (0 for the delta kernel, which
+// has its own windows in ulps).
+func (t *c12Ctx) cond(m *ref.KDEModel, x float64) float64 {
+	if t.c.Kernel == ref.KDelta || !(m.H > 0) {
+		return 0
+	}
+	return 0x1p-52 * t.mag(x) / m.H
+}
+
 // fmaxData is the largest density of the estimate over the data points.
 func (t *c12Ctx) fmaxData(m *ref.KDEModel) float64 {
 	fmax := 0.0
@@ -302,11 +342,11 @@ func (t *c12Ctx) judgePDF(m *ref.KDEModel, x, p, refP, fmax float64, what string
 		}
 		return
 	}
-	if !w.Err("PDF-vs-kernel-average", math.Abs(p-refP), c12TolPDF*fmax) {
+	if !w.Err("PDF-vs-kernel-average", math.Abs(p-refP), (c12TolPDF+c12CondFactor*t.cond(m, x))*fmax) {
 		t.bad("pdf-ref-"+t.conf, fmt.Sprintf("%sPDF(%.17g)=%.15g, %s reference %.15g (largest density %.3g)", what, x, p, c12RefName(t.conf), refP, fmax))
 		return
 	}
-	if t.c.Kernel == ref.KGaussian && refP > c12TailFloor {
+	if t.c.Kernel == ref.KGaussian && refP > c12TailFloor && refP*m.H > c12TailFloor {
 		// Gaussian kernel: every term of the (folded) average is positive, so
 		// the value is determined relative to itself, however small. The
 		// tolerance allows for the rounding of the image points (formed at
@@ -327,7 +367,7 @@ func (t *c12Ctx) judgePDF(m *ref.KDEModel, x, p, refP, fmax float64, what string
 // amb says that the value was taken inside an ambiguity window.
 func (t *c12Ctx) judgeCDF(m *ref.KDEModel, x, f, refC float64, what string) (amb bool) {
 	w := t.w
-	if !(f >= -c12Slack && f <= 1+c12Slack) {
+	if sl := c12Slack + c12CondSlack*t.cond(m, x); !(f >= -sl && f <= 1+sl) {
 		t.bad("cdf-range", fmt.Sprintf("%sCDF(%.17g)=%.17g outside [0,1]", what, x, f))
 		return
 	}
@@ -355,7 +395,7 @@ func (t *c12Ctx) judgeCDF(m *ref.KDEModel, x, f, refC float64, what string) (amb
 		}
 		return
 	}
-	if !w.Err("CDF-vs-kernel-average", math.Abs(f-refC), c12TolCDF) {
+	if !w.Err("CDF-vs-kernel-average", math.Abs(f-refC), c12TolCDF+c12CondFactor*t.cond(m, x)) {
 		t.bad("cdf-ref-"+t.conf, fmt.Sprintf("%sCDF(%.17g)=%.15g, %s reference %.15g", what, x, f, c12RefName(t.conf), refC))
 	}
 	return
@@ -390,6 +430,73 @@ func (t *c12Ctx) judgeBounds(m *ref.KDEModel, blo, bhi float64, what string) {
 	}
 }
 
+// c12Buf is one pair of backing arrays handed to the library (xs, ws; ws nil:
+// unweighted) with the harness's own record of what they hold (mxs, mws):
+// the model of an evaluation is built from the record, never from the arrays
+// the library can reach.
+type c12Buf struct {
+	xs, ws   []float64
+	mxs, mws []float64
+	writer   int // who last overwrote the arrays in place (0: nobody; 1: the KDE struct; j+2: the copy of step j)
+}
+
+func c12NewBuf(xs, ws []float64) *c12Buf {
+	b := &c12Buf{xs: append([]float64(nil), xs...), mxs: append([]float64(nil), xs...)}
+	if ws != nil {
+		b.ws, b.mws = append([]float64(nil), ws...), append([]float64(nil), ws...)
+	}
+	return b
+}
+
+// holds reports whether s still is the sample the harness put there: the
+// same backing arrays with the recorded contents. (A library that replaced
+// or permuted the caller's sample would make "overwrite in place" mean
+// something else than the record says; such steps are then not made.)
+func (b *c12Buf) holds(s stats.Sample) bool {
+	same := func(a, v, m []float64) bool {
+		if len(a) != len(v) || (a == nil) != (v == nil) {
+			return false
+		}
+		if len(a) > 0 && &a[0] != &v[0] {
+			return false
+		}
+		for i := range a {
+			if math.Float64bits(a[i]) != math.Float64bits(m[i]) {
+				return false
+			}
+		}
+		return true
+	}
+	return same(s.Xs, b.xs, b.mxs) && same(s.Weights, b.ws, b.mws)
+}
+
+// c12NewCtx is the evaluation context of a sample (the harness's record).
+func c12NewCtx(w *mon.W, root c12Case, mxs, mws []float64) (t c12Ctx, ties bool) {
+	xs := append([]float64(nil), mxs...)
+	var ws []float64
+	if mws != nil {
+		ws = append([]float64(nil), mws...)
+	}
+	t = c12Ctx{w: w, root: root, xs: xs, ws: ws, seen: map[float64]bool{}, xmin: xs[0], xmax: xs[0]}
+	for _, x := range xs {
+		t.xmin, t.xmax = math.Min(t.xmin, x), math.Max(t.xmax, x)
+		t.maxAbs = math.Max(t.maxAbs, math.Abs(x))
+		if t.seen[x] {
+			ties = true
+		}
+		t.seen[x] = true
+	}
+	return
+}
+
+func c12SumF(xs []float64) float64 {
+	s := 0.0
+	for _, x := range xs {
+		s += x
+	}
+	return s
+}
+
 func c12JudgeKDE(w *mon.W, c c12Case) {
 	xs := mon.Un(c.Xs)
 	var ws []float64
@@ -405,29 +512,21 @@ func c12JudgeKDE(w *mon.W, c c12Case) {
 			return
 		}
 	}
-	smp := stats.Sample{Xs: append([]float64(nil), xs...), Sorted: c.Sorted}
-	if ws != nil {
-		smp.Weights = append([]float64(nil), ws...)
-	}
-	k := &stats.KDE{Sample: smp, Kernel: stats.KDEKernel(c.Kernel), Bandwidth: float64(c.H),
+	buf0 := c12NewBuf(xs, ws)
+	k := &stats.KDE{Sample: stats.Sample{Xs: buf0.xs, Weights: buf0.ws, Sorted: c.Sorted}, Kernel: stats.KDEKernel(c.Kernel), Bandwidth: float64(c.H),
 		BoundaryMin: float64(c.BMin), BoundaryMax: float64(c.BMax)}
 
-	base := c12Ctx{w: w, root: c, xs: xs, ws: ws, seen: map[float64]bool{}, xmin: xs[0], xmax: xs[0]}
-	ties := false
-	for _, x := range xs {
-		base.xmin, base.xmax = math.Min(base.xmin, x), math.Max(base.xmax, x)
-		base.maxAbs = math.Max(base.maxAbs, math.Abs(x))
-		if base.seen[x] {
-			ties = true
-		}
-		base.seen[x] = true
-	}
+	base, ties := c12NewCtx(w, c, xs, ws)
 	// classes of the data: inputs only
 	w.HitIf(ws != nil, "weights")
 	w.HitIf(n == 1, "n=1")
 	w.HitIf(n >= 2 && base.xmin == base.xmax, "constant-sample")
 	w.HitIf(ties, "ties")
 	w.HitIf(c.Sorted, "sorted-flag")
+	if sp := base.xmax - base.xmin; sp > 0 {
+		w.HitIf(sp <= 1e-6, "data-scale<=1e-6")
+		w.HitIf(sp >= 1e6, "data-scale>=1e6")
+	}
 
 	// phase 0: the KDE as constructed
 	t := base
@@ -439,21 +538,94 @@ func c12JudgeKDE(w *mon.W, c c12Case) {
 		return
 	}
 	// evaluate -> re-parameterise -> evaluate. KDE is a plain struct of
-	// exported fields: assigning to Kernel, Bandwidth and the boundaries of a
-	// KDE that has been evaluated, or of a by-value copy of it, is ordinary
-	// use, and the property speaks of the parameters the KDE holds when it is
+	// exported fields, without a constructor: assigning to Kernel, Bandwidth
+	// and the boundaries of a KDE that has been evaluated, giving it another
+	// Sample, overwriting the values or weights of the Sample it holds, on
+	// the struct or on a by-value copy of it, is ordinary use, and the
+	// property speaks of the sample and parameters the KDE holds when it is
 	// called.
-	used := *k // the by-value copy of the used struct, taken before any change
+	used := *k   // the by-value copy of the used struct, taken before any change
+	kbuf := buf0 // the arrays k's Sample points at
 	for j, re := range c.Re {
-		target, label := k, fmt.Sprintf("step %d, same KDE struct after evaluation re-parameterised to ", j+1)
+		target, tb, who := k, kbuf, 1
+		label := fmt.Sprintf("step %d, same KDE struct after evaluation", j+1)
 		if re.Copy {
 			cp := used
-			target, label = &cp, fmt.Sprintf("step %d, by-value copy of the evaluated KDE struct re-parameterised to ", j+1)
+			target, tb, who = &cp, buf0, j+2
+			label = fmt.Sprintf("step %d, by-value copy of the evaluated KDE struct", j+1)
 			w.Hit("reparam/copy")
 		} else {
 			w.Hit("reparam/same-struct")
 		}
 		was := stats.KDE{Kernel: target.Kernel, Bandwidth: target.Bandwidth, BoundaryMin: target.BoundaryMin, BoundaryMax: target.BoundaryMax}
+
+		// the sample
+		if re.Data != "" {
+			nx, nw := mon.Un(re.NXs), mon.Un(re.NWs)
+			oldW, oldN, oldWeighted := float64(len(tb.mxs)), len(tb.mxs), tb.mws != nil
+			if oldWeighted {
+				oldW = c12SumF(tb.mws)
+			}
+			switch re.Data {
+			case "xs-inplace", "ws-inplace", "both-inplace":
+				doX, doW := re.Data != "ws-inplace", re.Data != "xs-inplace"
+				if (doX && len(nx) != len(tb.mxs)) || (doW && (tb.mws == nil || len(nw) != len(tb.mws))) {
+					return // not a meaningful history (hand-made case)
+				}
+				if !tb.holds(target.Sample) || (kbuf == tb && !tb.holds(k.Sample)) {
+					w.Note("resample/skipped:sample-replaced-by-library")
+					return
+				}
+				if doX {
+					for i, v := range nx {
+						target.Sample.Xs[i] = v
+					}
+					copy(tb.mxs, nx)
+					label += ", Sample.Xs overwritten in place"
+				}
+				if doW {
+					for i, v := range nw {
+						target.Sample.Weights[i] = v
+					}
+					copy(tb.mws, nw)
+					label += ", Sample.Weights overwritten in place"
+				}
+				tb.writer = who
+				w.Hit("resample/" + re.Data)
+			case "assign":
+				if len(nx) == 0 || (re.NWs != nil && len(nw) != len(nx)) {
+					return
+				}
+				if re.NWs == nil {
+					nw = nil
+				}
+				nb := c12NewBuf(nx, nw)
+				target.Sample = stats.Sample{Xs: nb.xs, Weights: nb.ws, Sorted: re.NSorted}
+				tb = nb
+				if !re.Copy {
+					kbuf = nb
+				}
+				label += fmt.Sprintf(", Sample assigned (n=%d -> %d)", oldN, len(nx))
+				w.HitIf(len(nx) == oldN, "resample/assign-same-length")
+				w.HitIf(len(nx) != oldN, "resample/assign-other-length")
+				w.HitIf(oldWeighted != (nw != nil), "resample/weighted<->unweighted")
+			default:
+				return
+			}
+			newW := float64(len(tb.mxs))
+			if tb.mws != nil {
+				newW = c12SumF(tb.mws)
+			}
+			w.HitIf(math.Abs(newW-oldW) > 0.1*oldW, "resample/total-weight-changed")
+			w.HitIf(re.Copy, "resample/on-copy")
+			w.HitIf(!re.Copy, "resample/on-same-struct")
+		} else if tb.writer != 0 && tb.writer != who {
+			// the arrays this struct points at were overwritten through
+			// another struct that shares them
+			w.Hit("resample/seen-through-shared-arrays")
+		}
+		label += ", re-parameterised to "
+
 		c2 := c
 		c2.Re = nil
 		c2.Kernel, c2.H, c2.BMin, c2.BMax = re.Kernel, re.H, re.BMin, re.BMax
@@ -464,8 +636,9 @@ func c12JudgeKDE(w *mon.W, c c12Case) {
 		w.HitIf(target.Kernel != was.Kernel, "reparam/kernel")
 		w.HitIf(target.Bandwidth != was.Bandwidth && target.Bandwidth != 0, "reparam/bandwidth")
 		w.HitIf(target.Bandwidth == 0, "reparam/zero-bandwidth")
+		w.HitIf(target.Bandwidth == 0 && re.Data != "", "reparam/zero-bandwidth-after-resample")
 		w.HitIf(target.BoundaryMin != was.BoundaryMin || target.BoundaryMax != was.BoundaryMax, "reparam/boundaries")
-		t := base
+		t, _ := c12NewCtx(w, c, tb.mxs, tb.mws)
 		t.c, t.k = c2, target
 		if !c12JudgePhase(&t, label) {
 			return
@@ -559,18 +732,72 @@ func c12JudgePhase(t *c12Ctx, label string) bool {
 	w.HitIf(bounded && (xmin == bmin || xmax == bmax), "boundary-touching-data")
 	w.HitIf(conf == "both" && c.Kernel != ref.KDelta && float64(c.H) > bmax-bmin, "bandwidth>boundary-width")
 	w.HitIf(bounded && (bmin == 0 || bmax == 0), "boundary-at-zero")
+	explicitInf := math.IsInf(float64(c.BMin), -1) && math.IsInf(float64(c.BMax), 1)
+	w.HitIf(explicitInf, "none/explicit-infinities")
 
 	h := float64(c.H)
+	var info ref.ScottInfo
 	if h == 0 {
 		// zero bandwidth: the first use selects Scott's rule (unweighted data)
 		if ws != nil || n < 2 {
 			return true // not in the domain (replayed or hand-made case)
 		}
-		w.Hit("zero-bandwidth")
-		info := ref.BandwidthRules(xs)
+		info = ref.BandwidthRules(xs)
 		if !(info.Scott > 0) || math.IsInf(info.Scott, 0) {
 			return true
 		}
+	}
+	if explicitInf && c.Kernel == ref.KGaussian {
+		// BoundaryMin = -Inf with BoundaryMax = +Inf makes the library take its
+		// boundary-correction path. Should that path treat the pair as two
+		// boundaries, its image series for a kernel of unbounded support has
+		// no end the harness could enforce. The same KDE with the kernel of
+		// bounded support (an in-domain KDE itself, given its bandwidth
+		// explicitly) is therefore evaluated first, at a sample value, and
+		// judged like any other; if it is refuted the case stops.
+		hh := h
+		if hh == 0 {
+			hh = info.Scott
+		}
+		if hh > 0 && !math.IsInf(hh, 0) {
+			w.Hit("explicit-infinities-bounded-kernel-twin")
+			twin := *k
+			twin.Kernel, twin.Bandwidth = stats.EpanechnikovKernel, hh
+			tt := *t
+			tt.nviol = 0
+			tt.c.Kernel = ref.KEpanechnikov
+			tt.desc = t.desc + " twin with the Epanechnikov kernel, bandwidth " + fmt.Sprint(hh)
+			me := ref.NewKDEModel(xs, ws, ref.KEpanechnikov, hh, bmin, bmax)
+			x := xs[0]
+			var p, f float64
+			w.Eval("KDE.PDF")
+			if pn, e := mon.Call(func() { p = twin.PDF(x) }); pn {
+				tt.bad("panic", fmt.Sprintf("PDF(%.17g) panicked: %v", x, e))
+			} else {
+				rp := me.PDF(x)
+				tt.judgePDF(me, x, p, rp, math.Max(tt.fmaxData(me), rp), "")
+			}
+			if tt.nviol == 0 {
+				w.Eval("KDE.CDF")
+				if pn, e := mon.Call(func() { f = twin.CDF(x) }); pn {
+					tt.bad("panic", fmt.Sprintf("CDF(%.17g) panicked: %v", x, e))
+				} else {
+					tt.judgeCDF(me, x, f, me.CDF(x), "")
+				}
+			}
+			if tt.nviol > 0 {
+				t.nviol += tt.nviol
+				return false
+			}
+		}
+	}
+	if h == 0 {
+		w.Hit("zero-bandwidth")
+		w.HitIf(info.Scott < 1e-6, "zero-bandwidth/scott<1e-6")
+		w.HitIf(info.Scott > 1e6, "zero-bandwidth/scott>1e6")
+		far := info.MaxAbs >= 1e3*(xmax-xmin)
+		w.HitIf(far, "zero-bandwidth/data>=1000-spreads-from-origin")
+		w.HitIf(far && info.SD <= info.IQR/1.349, "zero-bandwidth/far-from-origin/stddev-branch")
 		fx := xs[0]
 		if c.FirstX != nil {
 			fx = float64(*c.FirstX)
@@ -680,7 +907,7 @@ func c12JudgePhase(t *c12Ctx, label string) bool {
 		t.judgePDF(m, x, p, refP[i], fmax, "")
 		amb := t.judgeCDF(m, x, f, refC[i], "")
 		// monotone (a value taken inside an ambiguity window is not compared)
-		if !amb && !prevAmb && f < prevC-c12Slack {
+		if !amb && !prevAmb && f < prevC-c12Slack-c12CondSlack*t.cond(m, x) {
 			bad("cdf-monotone", fmt.Sprintf("CDF(%.17g)=%.17g < CDF(%.17g)=%.17g", x, f, prevX, prevC))
 		}
 		prevX, prevC, prevAmb = x, f, amb
@@ -710,7 +937,7 @@ func c12JudgePhase(t *c12Ctx, label string) bool {
 		}
 		if hi > lo && !c.NoTotal {
 			if tot, ok := integ(lo, hi); ok {
-				if !w.Err("total-mass", math.Abs(tot-1), c12TolInt) {
+				if !w.Err("total-mass", math.Abs(tot-1), c12TolInt+c12CondFactor*math.Max(t.cond(m, lo), t.cond(m, hi))) {
 					bad("total-mass-"+conf, fmt.Sprintf("integral of PDF over the support [%g,%g] = %.12g, want 1", lo, hi, tot))
 				}
 			} else {
@@ -732,7 +959,7 @@ func c12JudgePhase(t *c12Ctx, label string) bool {
 				bad("panic", fmt.Sprintf("CDF(%g or %g) panicked: %v", a, b, e))
 				return false
 			}
-			if !w.Err("integral-PDF-vs-CDF", math.Abs(in-(fb-fa)), c12TolInt) {
+			if !w.Err("integral-PDF-vs-CDF", math.Abs(in-(fb-fa)), c12TolInt+c12CondFactor*math.Max(t.cond(m, a), t.cond(m, b))) {
 				bad("pdf-integral-"+conf, fmt.Sprintf("integral of PDF over [%.17g,%.17g] = %.12g but CDF difference = %.12g", a, b, in, fb-fa))
 			}
 		}
@@ -921,7 +1148,14 @@ func c12Boundaries(rng *mon.Rand, conf int, xmin, xmax, spread float64) (bmin, b
 	if conf == 3 && !(bmax > bmin) {
 		bmax = xmax + rng.LogUniform(1e-3, 100)*spread
 	}
-	if conf == 0 || (bmin == 0 && bmax == 0) {
+	if conf == 0 {
+		// "none" is written (0,0), the default, or (-Inf,+Inf)
+		if rng.Intn(3) == 0 {
+			return math.Inf(-1), math.Inf(1)
+		}
+		return 0, 0
+	}
+	if bmin == 0 && bmax == 0 {
 		return 0, 0
 	}
 	return
@@ -1030,23 +1264,43 @@ func c12Hash(c c12Case) uint64 {
 		if re.Copy {
 			cp = 1
 		}
-		hs = hs.I(cp).I(re.Kernel).F(float64(re.H)).F(float64(re.BMin)).F(float64(re.BMax))
+		hs = hs.I(cp).I(re.Kernel).F(float64(re.H)).F(float64(re.BMin)).F(float64(re.BMax)).
+			S(re.Data).Fs(mon.Un(re.NXs)).Fs(mon.Un(re.NWs))
 	}
 	return hs.Sum()
 }
 
-// c12ReGen draws one re-parameterisation of the KDE of case c (current
-// parameters kernel, h, bmin/bmax as library fields): what = 0 bandwidth, 1
-// kernel, 2 boundaries, 3 all of them. zeroOK allows the new Bandwidth 0
-// (Scott's rule selected again; scott is its value).
-func c12ReGen(rng *mon.Rand, c *c12Case, cp bool, what int, kernel int, h float64, bminF, bmaxF float64, zeroOK bool, scott float64) c12Re {
-	xs := mon.Un(c.Xs)
-	xmin, xmax := c12MinMax(xs)
-	spread := xmax - xmin
+// c12Gen is the generator's view of one KDE struct before a step: the data
+// in force for the step (after any change of the sample), the range [lo,hi]
+// in which all data of the case lie (boundaries are drawn outside it), and
+// the parameters the struct holds (h: the effective bandwidth, > 0).
+type c12Gen struct {
+	xs, ws       []float64
+	lo, hi       float64
+	kernel       int
+	h            float64
+	bminF, bmaxF float64
+}
+
+// c12ReGen draws one re-parameterisation of a KDE: what = 0 bandwidth, 1
+// kernel, 2 boundaries, 3 all of them, 4 none. sp stands in for the spread
+// of a constant case. zeroOK allows the new Bandwidth 0 (Scott's rule
+// selected again) when the data in force qualify. It returns the step and
+// the effective bandwidth after it.
+func c12ReGen(rng *mon.Rand, g c12Gen, sp float64, cp bool, what int, zeroOK bool) (c12Re, float64) {
+	xs, h := g.xs, g.h
+	spread := g.hi - g.lo
 	if !(spread > 0) {
-		spread = h // constant sample: the bandwidth was tied to the scale
+		spread = sp
 	}
-	re := c12Re{Copy: cp, Kernel: kernel, H: mon.F(h), BMin: mon.F(bminF), BMax: mon.F(bmaxF), NoTotal: true}
+	scott := 0.0
+	if zeroOK && g.ws == nil && len(xs) >= 2 {
+		dlo, dhi := c12MinMax(xs)
+		if info := ref.BandwidthRules(xs); dhi > dlo && info.IQR > 0 && info.Scott >= 0.02*(dhi-dlo) && info.Scott <= 50*(dhi-dlo) {
+			scott = info.Scott
+		}
+	}
+	re := c12Re{Copy: cp, Kernel: g.kernel, H: mon.F(h), BMin: mon.F(g.bminF), BMax: mon.F(g.bmaxF), NoTotal: true}
 	h2 := h
 	if what == 0 || what == 3 {
 		h2 = h * rng.Pick(0.1, 0.25, 0.5, 2, 4, 10)
@@ -1054,22 +1308,22 @@ func c12ReGen(rng *mon.Rand, c *c12Case, cp bool, what int, kernel int, h float6
 		if h2 == h {
 			h2 = h * rng.Pick(0.5, 2)
 		}
-		if zeroOK && rng.Intn(3) == 0 {
+		if scott > 0 && rng.Intn(3) == 0 {
 			h2 = 0
 		}
 	}
 	if what == 1 || what == 3 {
-		re.Kernel = (kernel + 1 + rng.Intn(2)) % 3
+		re.Kernel = (g.kernel + 1 + rng.Intn(2)) % 3
 	}
 	if what == 2 || what == 3 {
 		conf2 := rng.Intn(4)
-		b0, b1 := c12Boundaries(rng, conf2, xmin, xmax, spread)
-		if b0 == bminF && b1 == bmaxF {
-			b0, b1 = c12Boundaries(rng, (conf2+1)%4, xmin, xmax, spread)
+		b0, b1 := c12Boundaries(rng, conf2, g.lo, g.hi, spread)
+		if b0 == g.bminF && b1 == g.bmaxF {
+			b0, b1 = c12Boundaries(rng, (conf2+1)%4, g.lo, g.hi, spread)
 		}
 		re.BMin, re.BMax = mon.F(b0), mon.F(b1)
 	}
-	tmp := c12Case{Xs: c.Xs, Kernel: re.Kernel, BMin: re.BMin, BMax: re.BMax}
+	tmp := c12Case{Xs: mon.Fs(xs), Kernel: re.Kernel, BMin: re.BMin, BMax: re.BMax}
 	_, m0, m1, cf := c12Config(tmp)
 	heff := h2
 	if h2 == 0 {
@@ -1089,24 +1343,173 @@ func c12ReGen(rng *mon.Rand, c *c12Case, cp bool, what int, kernel int, h float6
 		}
 		re.FirstX = &fx
 	}
-	return re
+	return re, heff
+}
+
+// c12NewData draws n values in [lo,hi]; for n >= 2 and hi > lo both ends
+// are attained (so that every bandwidth and boundary of the case stays in
+// range for the new data).
+func c12NewData(rng *mon.Rand, lo, hi float64, n int, sorted bool) []float64 {
+	xs := make([]float64, n)
+	switch {
+	case !(hi > lo):
+		for i := range xs {
+			xs[i] = lo
+		}
+	case n == 1:
+		xs[0] = rng.Pick(lo, hi)
+	default:
+		u := c12Unit(rng, n, rng.Intn(5))
+		for i := range xs {
+			xs[i] = math.Min(hi, math.Max(lo, lo+(hi-lo)*u[i]))
+			if u[i] == 1 {
+				xs[i] = hi
+			}
+		}
+		if a, b := c12MinMax(xs); a != lo || b != hi { // degenerate draw
+			xs[0], xs[n-1] = lo, hi
+		}
+	}
+	if sorted {
+		sort.Float64s(xs)
+	}
+	return xs
+}
+
+// c12DataSteps draws a history of steps that change the sample of the KDE of
+// case c (evaluated once already; h0: its effective bandwidth): values and/or
+// weights overwritten in place, another Sample assigned (same or other
+// length, with or without weights), on the struct itself and on by-value
+// copies, which share the backing arrays of the first sample.
+func c12DataSteps(rng *mon.Rand, c *c12Case, h0, sp float64, zeroOK bool) []c12Re {
+	type buf struct {
+		xs, ws []float64
+		sorted bool // a struct pointing here says Sorted
+	}
+	type par struct {
+		kernel       int
+		h            float64
+		bminF, bmaxF float64
+	}
+	b0 := &buf{xs: mon.Un(c.Xs), sorted: c.Sorted}
+	if c.Ws != nil {
+		b0.ws = mon.Un(c.Ws)
+	}
+	lo, hi := c12MinMax(b0.xs)
+	kb := b0
+	par0 := par{c.Kernel, h0, float64(c.BMin), float64(c.BMax)}
+	kpar := par0
+	type step struct {
+		copy bool
+		mode string // "", "inplace", "assign-same", "assign-other"
+	}
+	var plan []step
+	asg := []string{"assign-same", "assign-other"}
+	a := rng.Intn(2)
+	if rng.Bool() {
+		plan = []step{{false, "inplace"}, {true, asg[a]}, {false, asg[1-a]}, {false, "inplace"}}
+	} else {
+		plan = []step{{true, "inplace"}, {false, ""}, {false, asg[a]}, {true, asg[1-a]}}
+	}
+	var out []c12Re
+	for _, st := range plan {
+		tb, pr := kb, kpar
+		if st.copy {
+			tb, pr = b0, par0
+		}
+		nxs, nws := tb.xs, tb.ws
+		var re c12Re
+		data := ""
+		var nb *buf
+		switch st.mode {
+		case "inplace":
+			data = "xs-inplace"
+			if tb.ws != nil {
+				data = []string{"xs-inplace", "ws-inplace", "ws-inplace", "both-inplace"}[rng.Intn(4)]
+			}
+			if data != "ws-inplace" {
+				nxs = c12NewData(rng, lo, hi, len(tb.xs), tb.sorted)
+			}
+			if data != "xs-inplace" {
+				nws = c12Weights(rng, len(tb.xs))
+			}
+		case "assign-same", "assign-other":
+			data = "assign"
+			n := len(tb.xs)
+			// single-valued samples of any magnitude (Bounds used to loop for
+			// ever beyond 2^53: defect D22, repaired)
+			nmin := 1
+			for st.mode == "assign-other" && n == len(tb.xs) {
+				n = rng.Range(nmin, 40)
+				if rng.Intn(4) == 0 {
+					n = rng.Range(nmin, 3)
+				}
+			}
+			srt := rng.Intn(3) == 0
+			nxs = c12NewData(rng, lo, hi, n, srt)
+			nws = nil
+			if (zeroOK && rng.Intn(3) == 0) || (!zeroOK && rng.Intn(3) != 0) {
+				nws = c12Weights(rng, n)
+			}
+			nb = &buf{xs: nxs, ws: nws, sorted: srt}
+		}
+		what := rng.Intn(4)
+		if data != "" && rng.Bool() {
+			what = 4
+		}
+		if zeroOK && data != "" && rng.Bool() {
+			what = 0
+		}
+		re, heff := c12ReGen(rng, c12Gen{xs: nxs, ws: nws, lo: lo, hi: hi, kernel: pr.kernel, h: pr.h, bminF: pr.bminF, bmaxF: pr.bmaxF}, sp, st.copy, what, zeroOK)
+		re.Data = data
+		switch data {
+		case "xs-inplace":
+			re.NXs = mon.Fs(nxs)
+			tb.xs = nxs
+		case "ws-inplace":
+			re.NWs = mon.Fs(nws)
+			tb.ws = nws
+		case "both-inplace":
+			re.NXs, re.NWs = mon.Fs(nxs), mon.Fs(nws)
+			tb.xs, tb.ws = nxs, nws
+		case "assign":
+			re.NXs, re.NSorted = mon.Fs(nxs), nb.sorted
+			if nws != nil {
+				re.NWs = mon.Fs(nws)
+			}
+			if !st.copy {
+				kb = nb
+			}
+		}
+		if !st.copy {
+			kpar = par{re.Kernel, heff, float64(re.BMin), float64(re.BMax)}
+		}
+		out = append(out, re)
+	}
+	return out
 }
 
 // c12Data draws a sample: n values, location and scale.
-func c12Data(rng *mon.Rand, n int, maxCentre float64) (xs []float64, scale float64) {
+//
+// The scale is log-uniform over 24 decades (every oracle is relative to the
+// scale of the data); minCentre > 0 puts the data at least that many spreads
+// from the origin.
+func c12Data(rng *mon.Rand, n int, minCentre, maxCentre float64) (xs []float64, scale float64) {
 	shape := rng.Intn(5)
 	if n >= 2 && rng.Intn(25) == 0 {
 		shape = 5
 	}
 	u := c12Unit(rng, n, shape)
-	scale = rng.LogUniform(1e-3, 1e3)
+	scale = rng.LogUniform(1e-12, 1e12)
 	if rng.Intn(3) == 0 {
 		scale = rng.Pick(0.25, 1, 2, 10)
 	}
 	centre := 0.0
-	switch rng.Intn(4) {
-	case 0:
-	case 1:
+	switch k := rng.Intn(4); {
+	case minCentre > 0:
+		centre = rng.Sign() * rng.LogUniform(minCentre, maxCentre) * scale
+	case k == 0:
+	case k == 1:
 		centre = -scale * rng.Uniform(0, 1) // data straddle the origin
 	default:
 		centre = rng.Sign() * rng.LogUniform(0.01, maxCentre) * scale
@@ -1119,9 +1522,9 @@ func c12Data(rng *mon.Rand, n int, maxCentre float64) (xs []float64, scale float
 }
 
 func c12Run(r *mon.Run) {
-	r.Rule("KDEs over samples of 1..40 values (uniform, clustered, tied lattice, normal, outlier, constant; location up to 1000 spreads from the origin), optional positive weights, 3 kernels, bandwidth 0.02..50 spreads (or 0 = Scott's rule, unweighted data with positive IQR), 4 boundary configurations at distance 0..100 spreads; per KDE: 60 points (data points and their neighbours, kernel ends, boundaries and their neighbours, outside the boundaries, far away, uniform over the support), 6 sub-interval integrals plus the total mass, Bounds; Gaussian kernel: also points 5..37 bandwidths beyond the data (tails). Call histories: a zero-Bandwidth KDE's first call (PDF, CDF or Bounds, at a sample value or any point) is judged by value, as are first calls of three more fresh zero-Bandwidth twins at other points; every fourth random KDE (and half of the zero-bandwidth ones) is, after its evaluation, re-parameterised (Bandwidth and/or Kernel and/or boundaries assigned; in the zero-bandwidth class also Bandwidth set back to 0) on the same struct and on a by-value copy of the struct as first used, and each is evaluated again (about 30 points, 2 integrals, Bounds) against the model of the new parameters. Plus an enumerated family of small integer samples, and the bandwidth rules on Samples and on a harness type. Non-trivial = hits a class; distinct by hash of (data, weights, kernel, bandwidth, boundaries).")
+	r.Rule("KDEs over samples of 1..40 values (uniform, clustered, tied lattice, normal, outlier, constant; data scale log-uniform over 1e-12..1e12 in every class, all oracles being relative to the data scale; location up to 1000 spreads from the origin, in a quarter of the zero-bandwidth class 1e3..1e7 spreads), optional positive weights, 3 kernels, bandwidth 0.02..50 spreads (or 0 = Scott's rule, unweighted data with positive IQR), 4 boundary configurations at distance 0..100 spreads, no boundaries written (0,0) or (-Inf,+Inf); per KDE: 60 points (data points and their neighbours, kernel ends, boundaries and their neighbours, outside the boundaries, far away, uniform over the support), 6 sub-interval integrals plus the total mass, Bounds; Gaussian kernel: also points 5..37 bandwidths beyond the data (tails). Call histories: a zero-Bandwidth KDE's first call (PDF, CDF or Bounds, at a sample value or any point) is judged by value, as are first calls of three more fresh zero-Bandwidth twins at other points; every fourth random KDE (and half of the zero-bandwidth ones) is, after its evaluation, re-parameterised (Bandwidth and/or Kernel and/or boundaries assigned; in the zero-bandwidth class also Bandwidth set back to 0) on the same struct and on a by-value copy of the struct as first used, and each is evaluated again (about 30 points, 2 integrals, Bounds) against the model of the new parameters; three in eight random KDEs (a quarter of the zero-bandwidth ones) instead go through four steps that change the sample after use (all of Sample.Xs and/or Sample.Weights overwritten in place; another Sample of the same or of another length assigned, with or without weights; on the struct and on by-value copies, which share the backing arrays of the first sample, so that a write through one is seen by the other), each step followed by an evaluation against the model of the data and parameters the struct holds at the time of the call. Plus an enumerated family of small integer samples, and the bandwidth rules on Samples and on a harness type. Non-trivial = hits a class; distinct by hash of (data, weights, kernel, bandwidth, boundaries).")
 	r.Assume("reference: weighted kernel average written from the definition (Neumaier sums), explicit mirror-image sums for the folded estimate (Gaussian images beyond 12 bandwidths dropped: < 5e-32 of the peak), window masses evaluated in the well-conditioned tail; self-tested at start-up against hand-computed values, the 384-bit normal CDF and its own integrals; Go's math.Exp/Erf/Erfc are trusted",
-		"in-domain: data inside [BoundaryMin,BoundaryMax]; positive weights; zero Bandwidth only with unweighted data, n >= 2 and positive IQR (weighted standard deviation is not implemented by the library and panics by design); finite evaluation points",
+		"in-domain: data inside [BoundaryMin,BoundaryMax]; single-valued samples (n = 1 or constant) of any magnitude up to 1e19 (beyond 2^53 KDE.Bounds used to loop for ever: defect D22, repaired); positive weights; zero Bandwidth only with unweighted data, n >= 2 and positive IQR (weighted standard deviation is not implemented by the library and panics by design); finite evaluation points",
 		"no step budget inside Bounds itself: KDE.Bounds calls KDE.CDF directly, there is no harness callback to count. Stand-in: before every Bounds call the harness walks away from the data in doubling steps and requires the library's CDF to reach 0.005 / 0.995 within 2200 evaluations per side (else violation, Bounds not called); a case already refuted at its evaluation points is not continued. Any other non-termination can only trip the watchdog (inconclusive)",
 		"ambiguity window: delta kernel with boundaries, evaluation point within 16 ulps of a sample value (the images of the point are formed in rounded arithmetic): the values of the empirical CDF on both sides of the jump are accepted",
 		"delta kernel density: only what the statement and the kernel's documentation determine is asserted: PDF = 0 outside [BoundaryMin,BoundaryMax) (also at BoundaryMax when a sample sits there) and PDF = 0 at a point where no sample value sits (with boundaries: no sample value within 64 ulps, images are formed in rounded arithmetic); at a sample value only PDF >= 0",
@@ -1143,7 +1546,13 @@ func c12Run(r *mon.Run) {
 		"bw-harness-type", "bw-robust-branch", "bw-stddev-branch",
 		"first-call-value/PDF", "first-call-value/CDF", "first-call-value/Bounds", "first-call-unbounded-twin",
 		"reparam/same-struct", "reparam/copy", "reparam/bandwidth", "reparam/kernel", "reparam/boundaries", "reparam/zero-bandwidth",
-		"delta-pdf-outside-boundaries", "delta-pdf-at-BoundaryMax-sample", "delta-pdf-off-sample", "gaussian-tail")
+		"delta-pdf-outside-boundaries", "delta-pdf-at-BoundaryMax-sample", "delta-pdf-off-sample", "gaussian-tail",
+		"none/explicit-infinities", "explicit-infinities-bounded-kernel-twin",
+		"data-scale<=1e-6", "data-scale>=1e6", "zero-bandwidth/scott<1e-6", "zero-bandwidth/scott>1e6",
+		"zero-bandwidth/data>=1000-spreads-from-origin", "zero-bandwidth/far-from-origin/stddev-branch",
+		"resample/xs-inplace", "resample/ws-inplace", "resample/both-inplace", "resample/assign-same-length", "resample/assign-other-length",
+		"resample/on-copy", "resample/on-same-struct", "resample/seen-through-shared-arrays", "resample/total-weight-changed",
+		"resample/weighted<->unweighted", "reparam/zero-bandwidth-after-resample")
 	r.Gate(gates...)
 
 	const npts, nivs = 60, 6
@@ -1160,7 +1569,7 @@ func c12Run(r *mon.Run) {
 		case 1:
 			n = rng.Range(30, 40)
 		}
-		xs, scale := c12Data(rng, n, 1000)
+		xs, scale := c12Data(rng, n, 0, 1000)
 		c := c12Case{Op: "kde", Xs: mon.Fs(xs), Kernel: kernel}
 		if (i/12)%2 == 1 {
 			c.Ws = mon.Fs(c12Weights(rng, n))
@@ -1208,9 +1617,17 @@ func c12Run(r *mon.Run) {
 		if (i/12)%4 == 1 {
 			// evaluate -> re-parameterise -> evaluate: on the same struct, then
 			// on a by-value copy of the struct as first used
-			r1 := c12ReGen(rng, &c, false, rng.Intn(4), kernel, h, bmin, bmax, false, 0)
-			r2 := c12ReGen(rng, &c, true, rng.Intn(4), kernel, h, bmin, bmax, false, 0)
+			g := c12Gen{xs: xs, ws: mon.Un(c.Ws), lo: xmin, hi: xmax, kernel: kernel, h: h, bminF: bmin, bmaxF: bmax}
+			if c.Ws == nil {
+				g.ws = nil
+			}
+			r1, _ := c12ReGen(rng, g, spread, false, rng.Intn(4), false)
+			r2, _ := c12ReGen(rng, g, spread, true, rng.Intn(4), false)
 			c.Re = []c12Re{r1, r2}
+		} else if (i/12)%4 == 3 || (i/12)%8 == 2 {
+			// evaluate -> change the sample (in place, or assign another) ->
+			// evaluate: weighted ((i/12)%4 == 3) and unweighted first samples
+			c.Re = c12DataSteps(rng, &c, h, spread, false)
 		}
 		c12Judge(w, c)
 		w.Distinct(c12Hash(c))
@@ -1231,7 +1648,14 @@ func c12Run(r *mon.Run) {
 					xs[j] = float64(j)
 				}
 			} else {
-				xs, _ = c12Data(rng, n, 10)
+				// a quarter of the samples sit 1e3..1e7 spreads from the origin
+				// (timestamps, large counters): there the variance must not be
+				// formed from sum(x^2) - sum(x)^2/n
+				if i%4 == 3 {
+					xs, _ = c12Data(rng, n, 1e3, 1e7)
+				} else {
+					xs, _ = c12Data(rng, n, 0, 10)
+				}
 			}
 			xmin, xmax := c12MinMax(xs)
 			spread = xmax - xmin
@@ -1257,9 +1681,14 @@ func c12Run(r *mon.Run) {
 		if (i/36)%2 == 1 {
 			// after use the Bandwidth field holds Scott's value: re-parameterise
 			// the same struct and a copy, with zero Bandwidth allowed again
-			r1 := c12ReGen(rng, &c, false, rng.PickI(0, 1, 3), c.Kernel, info.Scott, bmin, bmax, true, info.Scott)
-			r2 := c12ReGen(rng, &c, true, rng.PickI(0, 3), c.Kernel, info.Scott, bmin, bmax, true, info.Scott)
+			g := c12Gen{xs: xs, lo: xmin, hi: xmax, kernel: c.Kernel, h: info.Scott, bminF: bmin, bmaxF: bmax}
+			r1, _ := c12ReGen(rng, g, spread, false, rng.PickI(0, 1, 3), true)
+			r2, _ := c12ReGen(rng, g, spread, true, rng.PickI(0, 3), true)
 			c.Re = []c12Re{r1, r2}
+		} else if (i/36)%4 == 2 {
+			// the sample is changed after use and Bandwidth set back to 0:
+			// Scott's rule of the data the KDE holds then
+			c.Re = c12DataSteps(rng, &c, info.Scott, spread, true)
 		}
 		c12Judge(w, c)
 		w.Distinct(c12Hash(c))
@@ -1329,8 +1758,9 @@ func c12Run(r *mon.Run) {
 		if !math.IsInf(bmin, 0) && !math.IsInf(bmax, 0) && !(bmax > bmin) {
 			return // a single point squeezed between touching boundaries: empty support
 		}
-		if (math.IsInf(bmin, 0) && math.IsInf(bmax, 0)) || (bmin == 0 && bmax == 0) {
-			if !(math.IsInf(bmin, 0) && math.IsInf(bmax, 0)) {
+		none := math.IsInf(bmin, 0) && math.IsInf(bmax, 0)
+		if none || (bmin == 0 && bmax == 0) {
+			if !none {
 				return // [0,0) cannot be expressed
 			}
 			bmin, bmax = 0, 0
@@ -1355,6 +1785,12 @@ func c12Run(r *mon.Run) {
 		}
 		c12Judge(w, c)
 		w.Distinct(c12Hash(c))
+		if none {
+			// the other way of writing "no boundaries"
+			c.BMin, c.BMax = mon.F(math.Inf(-1)), mon.F(math.Inf(1))
+			c12Judge(w, c)
+			w.Distinct(c12Hash(c))
+		}
 	})
 
 	// 4. the bandwidth rules on Samples
@@ -1364,7 +1800,10 @@ func c12Run(r *mon.Run) {
 		if i%10 == 0 {
 			n = rng.Range(1, 4)
 		}
-		xs, _ := c12Data(rng, n, 100)
+		xs, _ := c12Data(rng, n, 0, 100)
+		if i%5 == 4 {
+			xs, _ = c12Data(rng, n, 1e3, 1e7)
+		}
 		c := c12Case{Op: "bw-sample", Xs: mon.Fs(xs)}
 		if rng.Intn(3) == 0 {
 			sort.Float64s(xs)
@@ -1379,7 +1818,7 @@ func c12Run(r *mon.Run) {
 	// 5. the bandwidth rules on a harness type
 	r.Parallel("bw-iface", r.Pick(800, 8000), func(w *mon.W, i int) {
 		rng := w.Rng
-		sd := rng.LogUniform(1e-6, 1e6)
+		sd := rng.LogUniform(1e-12, 1e12)
 		iqr := sd * 1.349 * rng.LogUniform(0.01, 100)
 		switch i % 8 {
 		case 0:
@@ -1391,7 +1830,7 @@ func c12Run(r *mon.Run) {
 		case 3:
 			iqr = sd * 1.349 // the two estimates coincide up to rounding
 		}
-		q25 := rng.Sign() * rng.LogUniform(1e-3, 1e3) * (sd + iqr + 1e-3)
+		q25 := rng.Sign() * rng.LogUniform(1e-3, 1e3) * (sd + iqr) // sd and iqr are never both 0
 		if rng.Intn(3) == 0 {
 			q25 = 0
 		}
